@@ -1403,6 +1403,8 @@ def gen_C17(rng, tier):
         big = F(2 ** rng.choice([34, 36, 40, 60, 60]))      # 2^60 x a length of a few units exceeds int64
         pts = sorted(rng.sample([F(j) for j in range(0, 12)], rng.randint(3, 5)))
         gaps = k % 2 == 0         # with undefined gaps (float values), or everywhere defined (values may be integer-typed)
+        if not gaps:
+            big = F(2 ** 60)
         vals = ([rng.choice([F(0), None] if gaps else [F(0), big])]      # (everything a multiple of `big`: exact in binary64)
                 + [rng.choice([big, 2 * big, 3 * big, None, F(0)] if gaps else [big, 2 * big, 3 * big, F(0)]) for _ in pts[:-1]] + [F(0)])
         vals = [v for i, v in enumerate(vals) if i == 0 or True]
@@ -1417,7 +1419,7 @@ def gen_C17(rng, tier):
              C.query(0, "slicer", stat="mean", icl="left", ivs=[(pts[0], pts[-1])]), C.query(0, "value_sums"),
              C.query(0, "max"), C.query(0, "sample", xs=pts)]
         base_fl = flav(rng, has_nan(f))
-        if not gaps and k % 4 == 1:      # integer-typed values and labels: products beyond int64
+        if not gaps:      # integer-typed values and labels: products beyond int64
             base_fl["route"], base_fl["valdtype"] = "from_values", "int"
         for dom in DOMS:
             fl = dict(base_fl)
